@@ -81,6 +81,14 @@ ManyKernelCases ==
       /\ P(ConvCase("many", <<1, m, 3, 3>>, <<2, m, 2, 2>>, <<>>, FALSE, "f32", <<"2d", "many_channels">>))
       /\ P(ConvCase("many", <<m, 1, 3, 3>>, <<2, 1, 2, 2>>, <<>>, TRUE, "f32", <<"2d", "many_samples">>))
 
+\* extents that do not fit one byte (256, 257, 300), each beside its "twin" modulo 256 with the same remaining geometry: whatever a
+\* kernel geometry is turned into - a key, a packed word - two different geometries stay different (both orders occur: the cases
+\* of one process run concurrently)
+WideExtentCases ==
+   /\ \A c \in {1, 257, 2, 258, 256} : P(ConvCase("wide", <<1, c, 2, 4>>, <<1, c, 2, 3>>, <<>>, FALSE, "f32", <<"2d", "wide_extent", "channels_" \o ToString(c)>>))
+   /\ \A k \in {44, 300, 1, 257} : P(ConvCase("wide", <<1, 1, 301>>, <<1, 1, k>>, <<>>, FALSE, "f32", <<"1d", "wide_extent", "kernel_" \o ToString(k)>>))
+   /\ \A m \in {1, 257} : P(ConvCase("wide", <<1, 1, 4>>, <<m, 1, 2>>, <<>>, TRUE, "f32", <<"1d", "wide_extent", "kernels_" \o ToString(m)>>))
+
 \* long images (an output count that is no multiple of a block size)
 LongConvCases ==
    /\ P(ConvCase("long", <<1, 1, 40003>>, <<1, 1, 2>>, <<>>, TRUE, "f32", <<"1d", "long">>))
@@ -92,7 +100,7 @@ Init ==
    \/ ("conv2d" \in Fams /\ st \in [fam : {"conv2d"}, H : 2..MaxHW, W : 2..MaxHW, kh : 1..MaxK2, kw : 1..MaxK2, done : {FALSE}])
 Emit ==
    /\ ~st.done
-   /\ CASE st.fam = "conv1d" -> Conv1D(st.L, st.k, st.s, st.d) /\ (st.L = 1 /\ st.k = 1 /\ st.s = 1 /\ st.d = 1 => SpecialCases /\ LongConvCases /\ TileConvCases /\ ManyKernelCases)
+   /\ CASE st.fam = "conv1d" -> Conv1D(st.L, st.k, st.s, st.d) /\ (st.L = 1 /\ st.k = 1 /\ st.s = 1 /\ st.d = 1 => SpecialCases /\ LongConvCases /\ TileConvCases /\ ManyKernelCases /\ WideExtentCases)
         [] st.fam = "conv2d" -> Conv2D(st.H, st.W, st.kh, st.kw)
    /\ st' = [st EXCEPT !.done = TRUE]
 Next == Emit
